@@ -6,7 +6,8 @@ import P2sh.Props.C09
 The model of `src/builtins/functions.rs` (`Builtins.call`) carries an explicit `panic` outcome.
 `builtins_no_panic`: no builtin name and no argument list (any arity, any kinds) reaches it.
 The model has no `panic` site of its own left after the repairs; where the implementation may
-still abort for want of memory (a format width beyond 65 536 bytes of padding) the model
+still abort for want of memory (a format width beyond 100 000 bytes of padding — the bound up to
+which the reference renderer of C12 fixes padded text) the model
 *declines* (`.unmodelled`) instead of answering, so the exclusion is made explicit the other way
 round: `builtins_answer`, `str_declines`, `float_declines`, `format_answers` say exactly when the
 model declines — `hugeWidth` is the memory exclusion, as `hugeRepeat` is for `*` in C09.
@@ -153,7 +154,7 @@ theorem formatBuf_errs (args : List Val) : ErrIn (formatBuf args) := by
   · exact formatLoop_errs _ _ _ _
   · exact ErrIn.throw _ (by decide)
 
-/-- **the memory exclusion of the format family**: some field asks for more than 65 536 bytes of
+/-- **the memory exclusion of the format family**: some field asks for more than 100 000 bytes of
 padding (`format!` with an absurd width allocates it); the model declines (`.unmodelled`) -/
 def hugeWidth (args : List Val) : Bool :=
   match formatBuf args with
@@ -203,8 +204,9 @@ theorem printLen_total (args : List Val) (nl : Bool) :
 example : (∃ s, call "format" [.str "{:>5}|{}", .str "ab", .str "x"] = .ok (.str s)) ∨
     (∃ m, call "format" [.str "{:>5}|{}", .str "ab", .str "x"] = .err m) :=
   format_answers _ (by decide +kernel) (by decide +kernel)
-example : hugeWidth [.str "{:>70000}", .str "a"] = true := by decide +kernel
-example : hugeWidth [.str "{:>65536}", .str "a"] = false := by decide +kernel
+example : hugeWidth [.str "{:>100002}", .str "a"] = true := by decide +kernel
+example : hugeWidth [.str "{:>100001}", .str "a"] = false := by decide +kernel
+example : hugeWidth [.str "{:>70000}", .str "a"] = false := by decide +kernel
 
 /-! ## operators and builtins together -/
 
